@@ -361,9 +361,20 @@ def eval_terms(prop, name, header, terms, timeout=600):
 # --------------------------------------------------------------------------------------------------
 
 def load_known():
-    if not os.path.exists(KNOWN):
-        return []
-    return json.load(open(KNOWN)).get("findings", [])
+    """Known findings: the committed known_findings.json (assembled from known.d/*.json by
+    harness.mkmanifest) merged with the fragments themselves (deduplicated by id).  Never written
+    at check time."""
+    out = {}
+    if os.path.exists(KNOWN):
+        for k in json.load(open(KNOWN)).get("findings", []):
+            out[k["id"]] = k
+    kd = os.path.join(HOME, "known.d")
+    if os.path.isdir(kd):
+        for f in sorted(os.listdir(kd)):
+            if f.endswith(".json"):
+                for k in json.load(open(os.path.join(kd, f))):
+                    out[k["id"]] = k
+    return list(out.values())
 
 
 def stable_hash(obj):
